@@ -77,6 +77,7 @@ func sigObjectStable(sig *secp.Signature, hash []byte) string {
 			return strconv.FormatBool(sig.IsEqual(secp.NewSignature(&r, &s)))
 		}},
 	}
+	before := snap()
 	for _, g := range []struct {
 		name string
 		f    func() []byte
@@ -92,8 +93,10 @@ func sigObjectStable(sig *secp.Signature, hash []byte) string {
 		if m := scribbleStable(g.name, g.f); m != "" {
 			return m
 		}
+		if now := snap(); now != before {
+			return "OBJECT-CHANGED-BY-" + g.name + " " + before + " -> " + now
+		}
 	}
-	before := snap()
 	first := make([]string, len(obs))
 	for i, o := range obs {
 		first[i] = o.f()
@@ -239,6 +242,9 @@ func init() {
 	opImpl["export"] = func(a []string) string {
 		v, _ := strconv.Atoi(a[2])
 		sig := secp.NewSignatureWithRecoveryCode(scalarFromHex(a[0]), scalarFromHex(a[1]), byte(v))
+		if m := sigObjectStable(secp.NewSignatureWithRecoveryCode(scalarFromHex(a[0]), scalarFromHex(a[1]), byte(v)), bytesRepeat(0x5a, 32)); m != "" {
+			return m
+		}
 		r, s, c := sig.Export()
 		if m := sigObjectStable(sig, bytesRepeat(0x5a, 32)); m != "" {
 			return m
@@ -249,6 +255,9 @@ func init() {
 		v, _ := strconv.Atoi(a[2])
 		off, _ := strconv.Atoi(a[4])
 		sig := secp.NewSignatureWithRecoveryCode(scalarFromHex(a[0]), scalarFromHex(a[1]), byte(v))
+		if m := sigObjectStable(secp.NewSignatureWithRecoveryCode(scalarFromHex(a[0]), scalarFromHex(a[1]), byte(v)), bytesRepeat(0x5a, 32)); m != "" {
+			return m
+		}
 		out := hx(sig.ExportCompact(a[3] == "1", byte(off)))
 		if m := sigObjectStable(sig, bytesRepeat(0x5a, 32)); m != "" {
 			return m
